@@ -45,7 +45,7 @@ func VariantEnv(variant string) (bin string, env []string) {
 	case "purego":
 		return "purego", nil
 	case "sched":
-		return "sched", nil
+		return "sched", []string{"GOMAXPROCS=1"}
 	}
 	return variant, nil
 }
